@@ -320,9 +320,9 @@ Lemma tsearch_firsts_sound : forall t f,
 Proof.
   intros t. induction t as [vs ks IH] using node_ind2. intros f. rewrite Forall_forall in IH.
   rewrite tsearch_firsts_unfold, tsearch_raw_unfold. destruct f as [|l rest].
-  - destruct vs as [|x vs]; split; try (intros v []); try tauto.
-    + intros v [<- | []]. left. reflexivity.
-    + split; discriminate.
+  - destruct vs as [|x vs].
+    + split; [intros v [] | tauto].
+    + split; [intros v [<- | []]; left; reflexivity | split; discriminate].
   - destruct (is_hash l).
     + destruct vs as [|x vs].
       * simpl app. split.
